@@ -9,6 +9,7 @@ import glob, json, os, subprocess, sys, time
 from concurrent.futures import ThreadPoolExecutor
 from vlib import *
 import progcommon as pc
+import enumlayout
 
 PID = "C01"
 CORPUS = os.path.join(VERIF, "corpus", "c01")
@@ -309,13 +310,18 @@ def run_checked(tier):
     if have_generator():
         per = n_gen // len(profiles)
         for prof in profiles:
-            progs = pc.generated_programs(d, per, SEED, prof)
+            # callee-order (callee / receiver with effects next to effectful arguments) is allowed: fixed in 088cd38
+            progs = pc.generated_programs(d, per, SEED, prof, allow=["callee-order"])
             for i in range(0, len(progs), 400):
                 check_group(tally, d, f"gen:{prof}", f"gen-{prof}-{i}", progs[i:i + 400], 2_000_000)
     else:
         gen_note = "vh gen-programs is not available: no generated programs in this run"
         log("[c01] " + gen_note)
     fails = report(tally)
+    # 4. the rule-level half: spec/EnumLayout.tla (layout choice vs. representation semantics) replayed on the compiler
+    lay_stats = {}
+    lay_fails, lay_cov = enumlayout.run_layout(PID, tier, d, lay_stats)
+    fails += lay_fails
     repo_src = tally.by_source.get("repo", {})
     evaluator_undecided = sum(v for k, v in tally.tool.items() if k != "no-artefact")
     coverage = {
@@ -333,6 +339,8 @@ def run_checked(tier):
         "nodes_per_second_all_workers": int(tally.nodes / tally.tlc_wall) if tally.tlc_wall else 0,
         "generator": gen_note or "vh gen-programs profiles " + ",".join(profiles),
     }
+    coverage.update(lay_cov)
+    coverage["tlc_states"] += lay_stats.get("tlc_states", 0)
     write_evidence(PID, tier, "translation_validation", coverage,
                    ["spec/Semantics.tla is the reading of spec.md the verdicts rest on; it was validated by three-way agreement (specified run = WebAssembly run = TypeScript run) on the corpus and the repository's tests",
                     "wasm_interp (own WasmGC interpreter over the emitted bytes) observes the module faithfully; loader.js is transcribed, not executed",
@@ -350,8 +358,12 @@ def run_checked(tier):
 def replay(path):
     case = json.load(open(path))
     d = outdir(PID)
-    p = dict(case["case"]["program"])
-    p["with_std"] = case["case"].get("with_std", True)
+    if case.get("kind") == "enum-layout":       # a declaration set of EnumLayout.tla: the program prints every value
+        p = {"origin": "layout:" + json.dumps(case["case"]["decl"], sort_keys=True), "entry": "Main",
+             "sources": {"Main": case["case"]["program"]}}
+    else:
+        p = dict(case["case"]["program"])
+        p["with_std"] = case["case"].get("with_std", True)
     tally = Tally()
     check_group(tally, d, "replay", "replay", [p], 30_000_000, workers=1)
     for source, s in tally.by_source.items():
